@@ -682,11 +682,10 @@ _ = itertools
 # ----------------------------------------------------------------------------- shared phases
 
 def prove(ctx, obligations, refutations=()):
-    """compile the family's proof files (until they are in _CoqProject), then the obligations; refutation
+    """build the family's proof modules (make), then the obligations; refutation
     witnesses (`..._refuted` theorems: the model violates the property on a concrete input) are compiled too
     but are not obligations: when one stops compiling the finding no longer reproduces in the model"""
-    ensure_coq(ctx, MODEL_FILES + PROOF_FILES)
-    ctx.prove([], obligations)
+    ctx.prove(PROOF_MODULES, obligations, timeout=7200)
     for rf in refutations:
         rc, out = _vlib.sh(["timeout", "900", "coqc", "-Q", ".", "SE", "-w", "-notation-overridden", rf], cwd=_vlib.COQ, timeout=930)
         if rc != 0:
@@ -699,8 +698,6 @@ def prove(ctx, obligations, refutations=()):
 
 def build(ctx):
     drv = ctx.build_driver("arith_driver")
-    if not ensure_coq(ctx, MODEL_FILES):
-        return drv, None
     model = ctx.build_model("Arith", "C03/Extract.v", "arith_main.ml", "semodel", extra_ml=["expr_io.ml"])
     return drv, model
 
@@ -761,35 +758,9 @@ def correspondence_phase(ctx, pid, drv, model, recipes, stats, search=False):
 
 
 # ----------------------------------------------------------------------------- Coq files of this family
-# Until they are listed in coq/_CoqProject the files are compiled here, in dependency order, whenever a .vo is
-# missing or older than its source or than a library it depends on (Num/NumModel.vo is rebuilt by other checks).
-import os
+# (listed in coq/_CoqProject; `make` resolves the dependencies of these top-level proof modules)
 import vlib as _vlib
 
 MODEL_FILES = ["Expr/Arith.v", "Expr/Canon.v", "Expr/ArithGuards.v"]
-PROOF_FILES = ["Expr/ArithNum.v", "Expr/ArithDict.v", "Expr/ArithAddProofs.v", "Expr/Denote.v", "Expr/ArithFuel.v",
-               "Expr/ArithFuelMono.v", "Expr/ArithMulProofs.v", "Expr/ArithProg.v", "Expr/DenoteMul.v", "Expr/ArithMulUnique.v", "Expr/ArithPowProofs.v", "Expr/DenotePow.v"]
-EXTERNAL_DEPS = ["Num/NumModel.vo", "Expr/Cmp.vo", "Expr/Wf.vo", "Num/NumC05.vo", "Expr/CmpProofs.vo"]
-
-
-def ensure_coq(ctx, files):
-    with _vlib.Lock(os.path.join(_vlib.WORK, "coq.lock")):
-        newest = 0.0
-        for d in EXTERNAL_DEPS:
-            p = os.path.join(_vlib.COQ, d)
-            if os.path.exists(p):
-                newest = max(newest, os.path.getmtime(p))
-        for f in files:
-            src = os.path.join(_vlib.COQ, f)
-            vo = src[:-2] + ".vo"
-            if not os.path.exists(src):
-                continue
-            stale = (not os.path.exists(vo)) or os.path.getmtime(vo) < os.path.getmtime(src) or os.path.getmtime(vo) < newest
-            if stale:
-                rc, out = _vlib.sh(["timeout", "1800", "coqc", "-Q", ".", "SE", "-w", "-notation-overridden", f], cwd=_vlib.COQ, timeout=1830)
-                if rc != 0:
-                    kind = "correspondence" if f in MODEL_FILES else "proof"
-                    ctx.broken.append({"kind": kind, "name": f, "detail": out[-2500:]})
-                    return False
-            newest = max(newest, os.path.getmtime(vo))
-    return True
+PROOF_MODULES = ["Expr/ArithAddProofs.vo", "Expr/ArithFuelMono.vo", "Expr/ArithProg.vo", "Expr/ArithMulUnique.vo",
+                 "Expr/DenotePow.vo"]
